@@ -3,7 +3,8 @@
 (* message shape; plain fallback without keys) and C06 direction 2 (reference-built protected datagrams with every *)
 (* legal pad length, pad contents and IV contents must be accepted and decoded to the message).                    *)
 EXTENDS SKLife, Pools
-CONSTANT OnlySeq     \* TRUE: print only the long single-object sequences, attributed to C17 (state carried across operations)
+CONSTANT OnlySeq     \* "": everything; a property id: print only the long single-object sequences, attributed to that property
+                     \* (C17: state carried across operations; C20: protected messages held by the caller stay as they were)
 VARIABLES stage, su, role, mi, variant
 
 SuiteSeq == << Suite(128, "md5", "sha1"), Suite(192, "md5", "md5"), Suite(256, "md5", "sha256"),
@@ -147,7 +148,7 @@ SeqSteps(r, j, n, at, props) ==        \* at: number of steps emitted so far (th
                    UnprotectStep(props[2], "R", ~r, Ref(k + 1, "wire"), "nil", AcceptExp(SeqMsg(j))) >>
              \o SeqSteps(r, j + 1, n, k + 2, props)
 SeqVector(s, r, n) ==
-  LET props == IF OnlySeq THEN << "C17", "C17" >> ELSE << "C06", "C01" >> IN
+  LET props == IF OnlySeq # "" THEN << OnlySeq, OnlySeq >> ELSE << "C06", "C01" >> IN
   Vector("sk_sequence", << SaNew("S", s, KeysOf(s, 1)), SaNew("R", s, KeysOf(s, 1)) >> \o SeqSteps(r, 1, n, 2, props))
 
 NVariants == 9 + 16 + NInner + NBig + 1
@@ -157,7 +158,7 @@ Next ==
   \/ stage = 1 /\ stage' = 2 /\ mi' \in 1..NShapes /\ UNCHANGED << su, role, variant >>
   \/ stage = 2 /\ stage' = 3 /\ UNCHANGED << su, role, mi >>
      /\ variant' \in { v \in 1..NVariants :
-                         IF OnlySeq THEN v = NVariants /\ mi = 1 ELSE
+                         IF OnlySeq # "" THEN v = NVariants /\ mi = 1 ELSE
                          \* quick tier: thin out the product, every suite x role still meets every shape and every variant class
                          \/ Thorough
                          \/ (v <= 8 /\ (v + mi + su) % 4 = 0)
@@ -175,7 +176,7 @@ Vec == IF variant <= 8 THEN RoundTripVector(SuiteSeq[su], role, M(mi), variant)
        ELSE IF variant <= 25 THEN RefVector(SuiteSeq[su], role, M(mi), variant - 9)
        ELSE IF variant <= 25 + NInner THEN InnerVector(SuiteSeq[su], role, variant - 25)
        ELSE IF variant <= 25 + NInner + NBig THEN BigVector(SuiteSeq[su], role, variant - 25 - NInner + 3)
-       ELSE SeqVector(SuiteSeq[su], role, IF Thorough THEN (IF OnlySeq THEN 150 ELSE 60) ELSE (IF OnlySeq THEN 40 ELSE 24))
+       ELSE SeqVector(SuiteSeq[su], role, IF Thorough THEN (IF OnlySeq # "" THEN 150 ELSE 60) ELSE (IF OnlySeq # "" THEN 40 ELSE 24))
 Emit == stage = 3 => PrintT(ToJson(Vec))
 Sound == stage = 3 /\ variant <= 25 => Encodable(M(mi)) /\ FitsProtected(M(mi), SuiteSeq[su])
 =============================================================================
